@@ -27,12 +27,14 @@ impl DateRange {
     /// Returns the number of days in the `DateRange`.
     pub fn num_days(&self) -> usize {
         let duration = *self.end_date() - *self.start_date();
-        (duration.num_days() + 1) as usize
+        (duration.num_days() + 1).max(0) as usize
     }
 
     /// Partitions the date range into a [`Vec`] of count date ranges.
     pub fn partition(&self, count: usize) -> Vec<DateRange> {
-        if count < 2 {
+        if self.num_days() == 0 {
+            Vec::new()
+        } else if count < 2 {
             vec![self.clone()]
         } else {
             let days = self.num_days();
